@@ -135,35 +135,43 @@ def judge(case, pred, res):
             raise RuntimeError("worker result lacks step %s" % stepname)
         if "exc" in st:
             return fail("exception-in-%s|%s" % (stepname, st["exc"].split(":")[0]), error=st["exc"], log_so_far=st["log"], expected_compile=ct, expected_run=rt)
-    checks = [
-        ("compile-phase", ct, res["compile"]["log"]),
-        ("run-phase", rt, res["run"]["log"]),
-        ("bytecode-reimport", rt, res["reimport"]["log"]),
-        ("bytecode-fresh-process", rt, res["bc"]["log"]),
-        ("source-import", ct + rt, res["src"]["log"]),
-        ("eval-lazy", ct + rt, res["lazy"]["log"]),
-        ("eval-stream", pred["stream"], res["stream"]["log"]),
-    ]
-    for name, exp, act in checks:
+
+    def logs(name, exp, act):
         if exp != act:
-            return fail("%s-%s|%s" % (name, _kind(exp, act), _constructs(case, exp, act)), history=name, expected=exp, actual=act)
+            kind = _kind(exp, act)
+            # for a wrong multiplicity the construct owning the first stray/missing effect is part of the root-cause proxy
+            where = "|" + _constructs(case, exp, act) if kind == "count" else ""
+            return fail("%s-%s%s" % (name, kind, where), history=name, expected=exp, actual=act)
+
+    r = logs("compile-phase", ct, res["compile"]["log"]) or logs("run-phase", rt, res["run"]["log"])
+    if r:
+        return r
     if res["compile"]["compiles"] != 1:
         return fail("first-load-compiled-%d-times" % res["compile"]["compiles"])
     if not res.get("pyc_written"):
         return fail("no-bytecode-written")
     if res["reimport"]["compiles"] != 0:
-        return fail("bytecode-reimport-compiled", compiles=res["reimport"]["compiles"])
+        return fail("bytecode-reimport-compiled", compiles=res["reimport"]["compiles"], log=res["reimport"]["log"], expected=rt)
+    r = logs("bytecode-reimport", rt, res["reimport"]["log"])
+    if r:
+        return r
     if not res.get("pyc_present") or res["bc"]["compiles"] != 0:
-        return fail("bytecode-fresh-process-compiled", compiles=res["bc"]["compiles"], pyc_present=res.get("pyc_present"))
+        return fail("bytecode-fresh-process-compiled", compiles=res["bc"]["compiles"], pyc_present=res.get("pyc_present"), log=res["bc"]["log"], expected=rt)
+    r = logs("bytecode-fresh-process", rt, res["bc"]["log"])
+    if r:
+        return r
     if res["src"]["compiles"] != 1:
         return fail("source-import-compiled-%d-times" % res["src"]["compiles"])
+    r = (logs("source-import", ct + rt, res["src"]["log"]) or logs("eval-lazy", ct + rt, res["lazy"]["log"])
+         or logs("eval-stream", pred["stream"], res["stream"]["log"]))
+    if r:
+        return r
     ev, av = pred["stream_values"], res["stream"]["values"]
     if len(ev) != len(av):
         return fail("eval-stream-value-count", expected=ev, actual=av)
     for i, (e, a) in enumerate(zip(ev, av)):
         if e != "?" and e != a:
-            f = case["forms"][i]
-            return fail("top-level-value|%s" % (f[0] if isinstance(f, list) else "lit"), form_index=i, expected=ev, actual=av)
+            return fail("top-level-value", form_index=i, expected=ev, actual=av)
     return None
 
 
